@@ -20,6 +20,7 @@ func init() {
 	zzsv.Register("ZZ_C16_Len", ZZ_C16_Len)
 	zzsv.Register("ZZ_C16_Iterate", ZZ_C16_Iterate)
 	zzsv.Register("ZZ_C16_HostStrings", ZZ_C16_HostStrings)
+	zzsv.Register("ZZ_C16_LongKeys", ZZ_C16_LongKeys)
 	zzsv.Register("ZZ_C16_LiteralContainers", ZZ_C16_LiteralContainers)
 	zzsv.Register("ZZ_C16_SameContainer", ZZ_C16_SameContainer)
 }
@@ -475,4 +476,38 @@ func ZZ_C16_HostStrings(sv *zzsv.T) {
 			sv.Assert("C16.hoststr.char", zzSame(sv, seenV[k], zStr(want[k])))
 		}
 	}
+}
+
+// ZZ_C16_LongKeys: hash keys are whole strings, however long: two keys of
+// 33..70 bytes that differ in a single position (any position) are two keys;
+// each returns its own value, a third look-alike is absent, and the hash
+// counts and walks both.
+func ZZ_C16_LongKeys(sv *zzsv.T) {
+	n := []int{33, 36, 47, 64, 70}[sv.Choice("keylen", 5)]
+	pos := sv.Choice("position", n)
+	base := "/var/log/app/2024-01-01/server-01.log/and/some/more/of/the/same/path/x"[:n]
+	mk := func(c byte) string { return base[:pos] + string(c) + base[pos+1:] }
+	k1, k2, k3 := mk('#'), mk('$'), mk('%')
+	e := New("h = {k1: 1, k2: 2}; n = 0; foreach k, v in h { n = n + v; } return [h[k1], h[k2], h[k3], len(h), n, k1 in keys(h)];")
+	sv.Note("script", e.Script)
+	e.SetVariable("k1", &object.String{Value: k1})
+	e.SetVariable("k2", &object.String{Value: k2})
+	e.SetVariable("k3", &object.String{Value: k3})
+	if sv.Choice("noopt", 2) == 1 {
+		sv.Assume(e.Prepare([]byte{NoOptimize}) == nil)
+	} else {
+		sv.Assume(e.Prepare() == nil)
+	}
+	out, err := e.Execute(nil)
+	zzDescribe(sv, "result", out, err)
+	sv.Assert("C16.longkeys.noerror", err == nil)
+	arr, ok := out.(*object.Array)
+	sv.Assert("C16.longkeys.shape", ok && len(arr.Elements) == 6)
+	if !ok || len(arr.Elements) != 6 {
+		return
+	}
+	sv.Assert("C16.longkeys.own_values", zzSame(sv, arr.Elements[0], zInt(1)) && zzSame(sv, arr.Elements[1], zInt(2)))
+	sv.Assert("C16.longkeys.absent", zzSame(sv, arr.Elements[2], zNull()))
+	sv.Assert("C16.longkeys.count", zzSame(sv, arr.Elements[3], zInt(2)) && zzSame(sv, arr.Elements[4], zInt(3)))
+	sv.Assert("C16.longkeys.listed", zzSame(sv, arr.Elements[5], zBool(true)))
 }
